@@ -48,8 +48,10 @@ def outdir(pid):
 
 
 # ------------------------------------------------------------------------------------------ build
-def build(targets=("all",), verbose=False):
-    """(Re)build /repo's working tree and the drivers. Serialised by a lock so checks may run concurrently."""
+def build(modes=("engine",), verbose=False):
+    """(Re)build /repo's working tree and the named driver(s) build/hgv_<mode>. Serialised by a lock so checks may
+    run concurrently; only the requested drivers are linked, so a driver under development cannot break other checks."""
+    targets = [os.path.join(BUILD, "hgv_" + m) for m in modes]
     os.makedirs(BUILD, exist_ok=True)
     lock = open(os.path.join(BUILD, ".lock"), "w")
     fcntl.flock(lock, fcntl.LOCK_EX)
